@@ -9,6 +9,7 @@ worktree.  /repo itself is never modified.
 import json, os, re, subprocess, sys, shutil
 
 VERIF = os.path.dirname(os.path.dirname(os.path.abspath(__file__)))
+HARN = os.environ.get("SENS_HARNESS", VERIF)  # a frozen copy of /verif (so that edits made meanwhile do not leak into a batch)
 name, ids = sys.argv[1], [a for a in sys.argv[2:] if not a.startswith("--")]
 tier = "thorough" if "--thorough" in sys.argv else "quick"
 sd = os.path.join(VERIF, "seeded", name)
@@ -21,7 +22,7 @@ try:
     results = {}
     for cid in ids:
         env = dict(os.environ, GENJAX_SRC=os.path.join(wt, "src"), VERIF_OUTDIR=out)
-        p = subprocess.run([os.path.join(VERIF, "check"), cid, "--tier", tier], cwd=VERIF, env=env, capture_output=True, text=True)
+        p = subprocess.run([os.path.join(HARN, "check"), cid, "--tier", tier], cwd=HARN, env=env, capture_output=True, text=True)
         open(os.path.join(out, f"{cid}.log"), "w").write(p.stdout + p.stderr)
         buckets = re.findall(r"^  bucket=(\S+)", p.stdout, flags=re.M)
         results[cid] = {"exit": p.returncode, "violation_lines": p.stdout.count("\nVIOLATION") + p.stdout.startswith("VIOLATION"), "buckets": buckets[:6], "tier": tier}
